@@ -406,3 +406,11 @@ def cross_and_diagonal_blocks_sum(X, Y, s):
     D[0:M, 0:N] = X[:, None, 1] + Y[None, :, 0]
     D[M:M + N, N:N + M] = 1.0
     return np.sum(D)
+
+
+def loop_target_after_the_loop(X, Y, s):
+    # the loop's own variable keeps the last index after the loop
+    k = 0
+    for k in range(len(X)):
+        pass
+    return float(k) + s
